@@ -504,6 +504,25 @@ def m_vec_extend(I, st, fn, ce, args, line, depth, dest_ty, may_unwind):
 def m_collect(I, st, fn, ce, args, line, depth, dest_ty, may_unwind):
     if not is_iter(args[0]):
         return None
+    if dest_ty is not None and dest_ty.get("k") == "adt" and dest_ty["path"].endswith("::HashSet"):
+        try:
+            got = _source_items(I, st, args[0], fn, line, depth)
+        except Undecided:
+            return None
+        outs = []
+        for g in got:
+            if len(g) == 3:
+                outs.append((g[2] if g[2] in ("unwind", "cut") else "cut", None, g[1]))
+                continue
+            keys = []
+            for x in g[0]:
+                k = x[1] if x[0] == "const" else addr_of(I, x)
+                if k is None:
+                    raise Undecided("set element %r has no model address" % (x,))
+                if Const(k) not in keys:
+                    keys.append(Const(k))
+            outs.append(("ret", ("agg", "set", "HashSet", 0, tuple(keys)), g[1]))
+        return outs
     if dest_ty is not None and not (dest_ty.get("k") == "adt" and (dest_ty["path"].endswith("::Vec") or dest_ty["path"].endswith("::Box"))):
         return None
     try:
@@ -715,6 +734,66 @@ def m_array_map(I, st, fn, ce, args, line, depth, dest_ty, may_unwind):
     return [("ret", make_list(I, s, acc), s) for acc, s in states]
 
 
+def m_position(I, st, fn, ce, args, line, depth, dest_ty, may_unwind):
+    a = args[0]
+    it = I.load(st, a[1]) if a[0] == "ref" else a
+    if not is_iter(it):
+        return None
+    outs = []
+    work = [(it, st, 0)]
+    while work:
+        cur, s0, n = work.pop()
+        if n > 12:
+            outs.append(("cut", "position bound", s0))
+            continue
+        for tag, ni, item, s in nexts(I, s0, cur, fn, line, depth):
+            if tag == "done":
+                outs.append(("ret", _opt(0, []), s))
+            elif tag == "item":
+                for verdict, s2 in _call_pred(I, s, args[1], item, fn, line, depth):
+                    if verdict == "true":
+                        if a[0] == "ref":
+                            I.store(s2, a[1], ni)
+                        outs.append(("ret", _opt(1, [Const(n)]), s2))
+                    elif verdict == "false":
+                        work.append((ni, s2, n + 1))
+                    else:
+                        outs.append((verdict, None, s2))
+            else:
+                outs.append((tag, None, s))
+    return outs
+
+
+def m_split_at(I, st, fn, ce, args, line, depth, dest_ty, may_unwind):
+    v = as_view(I, st, args[0])
+    if v is None or args[1][0] != "const" or not isinstance(args[1][1], int):
+        return None
+    lid, lo, hi = v[2], v[4][0][1], v[4][1][1]
+    k = args[1][1]
+    if lo + k > hi:
+        I.emit(st, {"k": "PANIC", "what": "split_at out of range"}, fn, line)
+        return [("unwind", None, st)]
+    return [("ret", Agg("tuple", "", 0, [view(lid, lo, lo + k), view(lid, lo + k, hi)]), st)]
+
+
+def m_split_first(I, st, fn, ce, args, line, depth, dest_ty, may_unwind):
+    v = as_view(I, st, args[0])
+    if v is None:
+        return None
+    lid, lo, hi = v[2], v[4][0][1], v[4][1][1]
+    if lo >= hi:
+        return [("ret", _opt(0, []), st)]
+    return [("ret", _opt(1, [Agg("tuple", "", 0, [Ref(elem_loc(lid, lo)), view(lid, lo + 1, hi)])]), st)]
+
+
+def m_set_len(I, st, fn, ce, args, line, depth, dest_ty, may_unwind):
+    a = args[0]
+    sv = I.load(st, a[1]) if a[0] == "ref" else a
+    if not (sv[0] == "agg" and sv[1] == "set"):
+        return None
+    return [("ret", Const(len(sv[4])), st)]
+
+
 def iter_len(it):
     kind = it[2]
     if kind in ("ref", "val"):
@@ -795,6 +874,11 @@ def install():
     M["std::iter::Iterator::map"] = m_lazy("map")
     M["std::iter::Iterator::zip"] = m_zip
     M["std::iter::Iterator::find"] = m_find
+    M["std::iter::Iterator::position"] = m_position
+    M["core::slice::<impl [T]>::split_at"] = m_split_at
+    M["core::slice::<impl [T]>::split_first"] = m_split_first
+    M["std::collections::HashSet::<T, S, A>::len"] = m_set_len
+    M["std::collections::HashSet::<T, S>::len"] = m_set_len
     M["std::iter::Iterator::collect"] = m_collect
     M["core::slice::<impl [T]>::windows"] = m_windows
     M["core::slice::<impl [T]>::iter_mut"] = m_iter(False)
@@ -847,6 +931,7 @@ def install():
         M["<%s as std::iter::Iterator>::all" % n] = m_all_any(True)
         M["<%s as std::iter::Iterator>::any" % n] = m_all_any(False)
         M["<%s as std::iter::Iterator>::find" % n] = m_find
+        M["<%s as std::iter::Iterator>::position" % n] = m_position
         M["<%s as std::iter::ExactSizeIterator>::len" % n] = m_iter_len
         M["<%s as std::iter::Iterator>::collect" % n] = m_collect
     M["<std::vec::Vec<T, A> as std::ops::Index<I>>::index"] = m_index
